@@ -49,6 +49,14 @@ fn short_hex(h: &[u8; 32]) -> String {
     out
 }
 
+/// Remove a file whose deletion is being propagated; "already gone" is fine.
+fn remove_propagated(p: &Path) -> std::io::Result<()> {
+    match std::fs::remove_file(p) {
+        Err(e) if e.kind() != std::io::ErrorKind::NotFound => Err(e),
+        _ => Ok(()),
+    }
+}
+
 /// Atomic local copy: temp sibling + rename (never a torn destination).
 fn copy_atomic(src: &Path, dst: &Path) -> std::io::Result<()> {
     if let Some(p) = dst.parent() {
@@ -236,12 +244,14 @@ fn apply(
                 common.insert(rel.to_path_buf(), *fp);
             }
         }
+        // A delete that did not happen must not be recorded (or the run reported as
+        // complete): the other side no longer has the file, the next run would bring it back.
         Action::DeleteA => {
-            let _ = std::fs::remove_file(&pa);
+            remove_propagated(&pa)?;
             common.remove(rel);
         }
         Action::DeleteB => {
-            let _ = std::fs::remove_file(&pb);
+            remove_propagated(&pb)?;
             common.remove(rel);
         }
         Action::Conflict(ConflictKind::DeleteVsModify) => {
